@@ -110,6 +110,8 @@ package utils
 // validateChecksum did, and validateChecksum only when the computed and the announced checksum are equal; the chunk
 // payload is read through the tee that feeds the hash; none of the helpers reports a bare io.EOF.
 //@ func (*UnsignedChunkReader) extractChunkSize
+// C12: the size field is parsed as an unsigned number (a signed parse accepts "+a" and "-0")
+//@   at-call? strconv.ParseInt {C12} [the-size-field-is-parsed-unsigned] requires false
 // C20: the size line is read into the reader's own bounded buffer (ReadSlice), never into one that grows with the line
 //@   at-call? bufio.Reader.ReadString {C20} [a-size-line-is-read-into-a-bounded-buffer] requires false
 //@   at-call? bufio.Reader.ReadBytes {C20} [a-size-line-is-read-into-a-bounded-buffer-2] requires false
@@ -163,6 +165,7 @@ package utils
 //@   ensures {C12} [not-a-clean-end] ret3 != io.EOF
 //@   ensures {C20} [no-size] ret0 == 0
 //@ func (*ChunkReader) parseChunkHeaderBytes
+//@   at-call? strconv.ParseInt {C12} [the-size-field-is-parsed-unsigned] requires false
 //@   ensures {C02,C12} [whether-the-raw-stream-ended-is-left-alone] cr.isEOF == old(cr.isEOF)
 //@   arith assumed
 //@   ensures {C12} [not-a-clean-end] ret3 != io.EOF
